@@ -1,6 +1,6 @@
 (* C17: the property statements assembled from the pieces. *)
 From Gv Require Import lib.Bytes lib.Gql C17.Util C17.ValueSyntax C17.Base C17.Model C17.Spec
-  C17.ProofsBase C17.ProofsValue C17.ProofsGen C17.ProofsShape C17.ProofsExact C17.ProofsRound C17.ProofsSpec C17.Witness.
+  C17.ProofsBase C17.ProofsValue C17.ProofsGen C17.ProofsShape C17.ProofsExact C17.ProofsRound C17.ProofsSpec C17.ProofsRoots C17.Witness.
 Open Scope N_scope.
 
 Lemma lossy_split : forall S, lossy_clauses S = [] -> conv_ok S /\ gen_ok S.
@@ -18,6 +18,22 @@ Lemma complete_exact_partial_proof : forall S, wf_schema S = true -> generate_lo
   exists D, generate S = Some D /\ complete_exact_b S D = true.
 Proof.
   intros S WF G. destruct (generate_exact S WF G) as [D [A [B _]]]. eauto.
+Qed.
+
+(* documents without schema definition: the same two claims about the schema they describe *)
+Lemma no_schema_definition_proof : forall S,
+  s_query S = [] -> s_mutation S = None -> s_subscription S = None ->
+  wf_schema (described false S) = true ->
+  generate_doc false S = generate (described false S)
+  /\ (lossy_clauses (described false S) = [] ->
+      exists D C, generate_doc false S = Some D /\ convert D = COk C /\ schema_equiv C (with_base (described false S)))
+  /\ (generate_lossy (described false S) = [] ->
+      exists D, generate_doc false S = Some D /\ complete_exact_b (described false S) D = true).
+Proof.
+  intros S NQ NM NS WF. pose proof (generate_no_schema_definition S NQ NM NS WF) as E.
+  split; [exact E|]. rewrite E. split; intro L.
+  - apply roundtrip_partial_proof; auto.
+  - apply complete_exact_partial_proof; auto.
 Qed.
 
 (* since the repair of typeref-kind-name-collision this needs no hypothesis on S at all *)
